@@ -164,9 +164,10 @@ impl Parser {
                         .for_type(&TypecheckFlags::use_class(maybe_class_type.as_ref()))
                         .unwrap();
 
+                    // as in `m[k] = v`: a plain `T` is a present value of a map whose values are `T?`
                     if !value_type.eq_complex(
                         map_type.value_type(),
-                        &TypecheckFlags::use_class(maybe_class_type.as_ref()),
+                        &TypecheckFlags::use_class(maybe_class_type.as_ref()).lhs_unwrap(true),
                     ) {
                         errors.push(new_err(value_span, &input.user_data().get_source_file_name(), format!("This map expects values with type `{}`, but instead found type `{value_type}`", map_type.value_type())))
                     }
